@@ -4,9 +4,9 @@ import fcntl, hashlib, json, os, re, shutil, subprocess, sys, time
 VERIF = os.path.dirname(os.path.dirname(os.path.abspath(__file__)))
 REPO = os.environ.get("SPECS_REPO", "/repo")
 LEAN = os.path.join(VERIF, "lean")
-HARNESS = os.path.join(VERIF, "harness")
+HARNESS = os.environ.get("VERIF_HARNESS", os.path.join(VERIF, "harness"))
 BUILD = os.path.join(VERIF, "build")
-TARGET = os.path.join(BUILD, "harness-target")
+TARGET = os.environ.get("VERIF_TARGET", os.path.join(BUILD, "harness-target"))
 TMP = os.path.join(BUILD, "tmp")
 REPLAYS = os.path.join(VERIF, "replays")
 EVIDENCE = os.path.join(VERIF, "evidence")
